@@ -76,6 +76,11 @@ func concatParts(v ssa.Value, depth int) []ssa.Value {
 				if len(out) > 0 {
 					return out
 				}
+			default:
+				// single-argument pure helpers (Dir, Clean, CleanPath ...) keep the shape
+				if idx, ok := pureStringFuncs[qualName(f)]; ok && len(idx) == 1 && idx[0] >= 0 && idx[0] < len(x.Call.Args) {
+					return concatParts(x.Call.Args[idx[0]], depth+1)
+				}
 			}
 		}
 	case *ssa.MakeInterface:
